@@ -329,45 +329,30 @@ def check_range(P, R):
         if fn is None:
             raise AnalysisBroken("%s vanished" % fname)
         R.saw(fn)
-        m = tu.global_var("m", fname)
-        mval = None
-        if m is not None:
-            mval = m.get("val") if "val" in m else init_value(m.get("init"))
-        vars_ = {}
-        calls = {}
-        for x in fn.walk():
-            if x.get("k") == "Var" and kids(x):
-                vars_[x["n"]] = (x, kids(x)[0])
-        ret = [x for x in fn.walk() if x.get("k") == "ReturnStmt"]
-        if mval is None or "i" not in vars_ or "j" not in vars_ or len(ret) != 1:
-            raise AnalysisBroken("%s: shape of %s not recognised" % (rule, fname))
-        # which bound does i / j compare against?
-        role = {}
-        for nm in ("i", "j"):
-            c = [y for y in walk(vars_[nm][1]) if y.get("k") == "CallExpr" and y.get("callee") == cmp_]
-            if len(c) != 1:
-                raise AnalysisBroken("%s: %s of %s does not call %s once" % (rule, nm, fname, cmp_))
-            a = [expr_text(strip(z)) for z in call_args(c[0])]
-            role[nm] = a
-        if role["i"] != ["d", "d1"] or role["j"] != ["d", "d2"]:
-            R.finding(rule, fn, "operand roles", "i must be cmp(d, d1) and j cmp(d, d2); found i=cmp(%s) j=cmp(%s)"
-                      % (",".join(role["i"]), ",".join(role["j"])))
-            continue
+        # the predicate folded as it stands, the comparison replaced by a stand-in that answers ci for (d, d1) and cj for (d, d2) and
+        # tells when it is asked anything else (names of locals, the spelling of masks and of the lookup do not matter)
+        import fold as _fold
         got = {}
+        roles_bad = []
         for ci in (-2, -1, 0, 1):
             for cj in (-2, -1, 0, 1):
-                env = {}
-
-                def fold(nm, cv):
-                    call = [y for y in walk(vars_[nm][1]) if y.get("k") == "CallExpr" and y.get("callee") == cmp_][0]
-                    # substitute the call by its value
-                    return _ceval_subst(vars_[nm][1], call, cv, tu.types)
+                def cmp_model(a, b, ci=ci, cj=cj):
+                    ka, kb = (a or {}).get("mark"), (b or {}).get("mark")
+                    if ka == 0 and kb == 1:
+                        return ci
+                    if ka == 0 and kb == 2:
+                        return cj
+                    roles_bad.append((ka, kb))
+                    return 0
                 try:
-                    iv, jv = fold("i", ci), fold("j", cj)
-                    env = {vars_["i"][0]["d"]: iv, vars_["j"][0]["d"]: jv, m["d"]: mval}
-                    got[(ci, cj)] = ceval(kids(ret[0])[0], env, tu.types)
-                except NotConst as e:
+                    fo = _fold.Folder(fn, calls={cmp_: cmp_model}, inline=True, max_steps=100000)
+                    got[(ci, cj)] = fo.run([{"mark": 0}, {"mark": 1}, {"mark": 2}])
+                except (NotConst, _fold.Abort) as e:
                     raise AnalysisBroken("%s: cannot fold the matrix lookup of %s: %s" % (rule, fname, e))
+        if roles_bad:
+            R.finding(rule, fn, "operand roles", "the value must be compared with the lower bound and with the upper bound, (d, d1) and (d, d2); "
+                      "found a comparison of operands %s" % (sorted(set(roles_bad))[:3],))
+            continue
         got_all[fname] = got
         bad = {k: (got[k], want[k]) for k in want if got[k] != want[k]}
         if bad:
